@@ -286,12 +286,23 @@ func c17config(c *evid.Ctx) {
 		case 2:
 			pub = gen.V4Mapped(r.PublicIPv4())
 		}
-		noSec := i%2 == 0
+		noSec := (i/6)%2 == 0
 		c.Eval(1)
-		c.Distinct(gen.Hash64("config", []byte(pub), noSec, i%5))
+		c.Distinct(gen.Hash64("config", []byte(pub), noSec, i%6))
 		var got krpc.ID
 		var how string
-		switch i % 5 {
+		switch i % 6 {
+		case 5:
+			// No socket supplied: NewServer opens one itself (loopback UDP, no traffic is sent).
+			how = "NewServer(no Conn)"
+			s, err := dht.NewServer(&dht.ServerConfig{PublicIP: pub, NoSecurity: noSec,
+				StartingNodes: func() ([]dht.Addr, error) { return nil, nil }})
+			if err != nil {
+				c.Inconclusive("NewServer without Conn: " + err.Error())
+				continue
+			}
+			got = s.ID()
+			s.Close()
 		case 0, 1, 2:
 			how = "NewServer"
 			conn := simnet.NewConn(&net.UDPAddr{IP: net.IP{198, 51, 100, 7}, Port: 1000 + i})
